@@ -32,6 +32,7 @@ type c09Env struct {
 	c      *Ctx
 	scheme string // bgv | bfv | ckks
 	logN   int
+	nP     int // number of auxiliary primes
 	rp     *rlwe.Parameters
 	bgvP   bgv.Parameters
 	ckksP  ckks.Parameters
@@ -52,20 +53,21 @@ type c09Evals struct {
 	rl   *rlwe.Evaluator
 }
 
-func newC09Env(c *Ctx, scheme string, logN int) *c09Env {
-	e := &c09Env{c: c, scheme: scheme, logN: logN}
+func newC09Env(c *Ctx, scheme string, logN int, nP int) *c09Env {
+	e := &c09Env{c: c, scheme: scheme, logN: logN, nP: nP}
+	logP := []int{50, 50, 50}[:nP]
 	e.rots = []int{1, 2, 3, 4, 5, 6, 7, 8}
 	var pp rlwe.ParameterProvider
 	switch scheme {
 	case "bgv", "bfv":
-		p, err := bgv.NewParametersFromLiteral(bgv.ParametersLiteral{LogN: logN, LogQ: []int{45, 40, 40}, LogP: []int{50}, PlaintextModulus: 65537})
+		p, err := bgv.NewParametersFromLiteral(bgv.ParametersLiteral{LogN: logN, LogQ: []int{45, 40, 40}, LogP: logP, PlaintextModulus: 65537})
 		if err != nil {
 			panic(err)
 		}
 		e.bgvP, pp = p, p
 		e.bgvE = bgv.NewEncoder(p)
 	default:
-		p, err := ckks.NewParametersFromLiteral(ckks.ParametersLiteral{LogN: logN, LogQ: []int{55, 40, 40}, LogP: []int{55}, LogDefaultScale: 40})
+		p, err := ckks.NewParametersFromLiteral(ckks.ParametersLiteral{LogN: logN, LogQ: []int{55, 40, 40}, LogP: append([]int{55}, logP[1:]...), LogDefaultScale: 40})
 		if err != nil {
 			panic(err)
 		}
@@ -407,12 +409,16 @@ func (e *c09Env) operand(kind, rel string, lvl int) interface{} {
 	switch kind {
 	case "ct":
 		mul := uint64(1)
-		if rel == "lt" {
-			mul = 3
+		if dir, k := c09Rel(rel); dir == "lt" {
+			mul = k
 		}
 		return e.encrypt(2, lvl, mul)
 	case "pt":
-		return e.encode(2, lvl, 1)
+		mul := uint64(1)
+		if dir, k := c09Rel(rel); dir == "lt" {
+			mul = k
+		}
+		return e.encode(2, lvl, mul)
 	case "u64":
 		return uint64(3)
 	case "big":
@@ -465,12 +471,25 @@ func c09Snap(b interface{}) string {
 	return deepHash(b)
 }
 
+// a scale relation is "eq", "gt<k>" (scale(op0) = k·scale(op1)) or "lt<k>" (scale(op1) = k·scale(op0))
+func c09Rel(rel string) (dir string, k uint64) {
+	if rel == "eq" {
+		return "eq", 1
+	}
+	k = 0
+	for _, ch := range rel[2:] {
+		k = 10*k + uint64(ch-'0')
+	}
+	return rel[:2], k
+}
+
 func c09Model(rel string) (int, int) {
-	switch rel {
+	dir, k := c09Rel(rel)
+	switch dir {
 	case "gt":
-		return 6, 2
+		return 2 * int(k), 2
 	case "lt":
-		return 2, 6
+		return 2, 2 * int(k)
 	}
 	return 4, 4
 }
@@ -495,7 +514,7 @@ func isPanic(err error) bool { return err != nil && len(err.Error()) >= 6 && err
 
 func (e *c09Env) runOp(op c09Op, rel string, lvl0, lvl1 int) {
 	c := e.c
-	sc := fmt.Sprintf("%s/logN%d/%s/l%d,%d", e.scheme, e.logN, rel, lvl0, lvl1)
+	sc := fmt.Sprintf("%s/logN%d/P%d/%s/l%d,%d", e.scheme, e.logN, e.nP, rel, lvl0, lvl1)
 	// stable finding keys: the four defects handled by the C05 patches get their own key
 	key := func(what, pat string) string {
 		isBgv := containsStr(op.name, "bgv.Evaluator")
@@ -513,8 +532,8 @@ func (e *c09Env) runOp(op c09Op, rel string, lvl0, lvl1 int) {
 		return "C09-" + what + "-" + op.name + pat
 	}
 	mulA := uint64(1)
-	if rel == "gt" {
-		mulA = 3
+	if dir, k := c09Rel(rel); dir == "gt" {
+		mulA = k
 	}
 	var A *rlwe.Ciphertext
 	if op.kind == "deg2" {
@@ -613,7 +632,15 @@ func (e *c09Env) runOp(op c09Op, rel string, lvl0, lvl1 int) {
 	if !isAcc {
 		pats = append(pats, pat{"out=op0", func(ev *c09Evals) (*rlwe.Ciphertext, error, c09FP) {
 			a, b := A.CopyNew(), c09CopyOperand(B)
+			hb := c09Snap(b)
 			err := c09Err(func() error { return op.call(ev, a, b, a) })
+			if err == nil {
+				d := ""
+				if c09Snap(b) != hb {
+					d = "op1-changed(" + op.kind + ")"
+				}
+				c.Probe("inputs_unchanged/"+op.name+"/out=op0", sc, key("inputs", "/out=op0"), d)
+			}
 			return a, err, ref
 		}})
 	}
@@ -621,7 +648,15 @@ func (e *c09Env) runOp(op c09Op, rel string, lvl0, lvl1 int) {
 		if !isAcc {
 			pats = append(pats, pat{"out=op1", func(ev *c09Evals) (*rlwe.Ciphertext, error, c09FP) {
 				a, b := A.CopyNew(), B.(*rlwe.Ciphertext).CopyNew()
+				ha := deepHash(a)
 				err := c09Err(func() error { return op.call(ev, a, b, b) })
+				if err == nil {
+					d := ""
+					if deepHash(a) != ha {
+						d = "op0-changed"
+					}
+					c.Probe("inputs_unchanged/"+op.name+"/out=op1", sc, key("inputs", "/out=op1"), d)
+				}
 				return b, err, ref
 			}})
 		}
@@ -1060,29 +1095,42 @@ func genC09(c *Ctx) {
 	}
 	for _, scheme := range []string{"bgv", "bfv", "ckks"} {
 		for _, logN := range logNs {
-			e := newC09Env(c, scheme, logN)
+		  for _, nP := range []int{1, 2} {
+			if nP == 2 && logN != 5 {
+				continue
+			}
+			e := newC09Env(c, scheme, logN, nP)
 			ops := e.catalogue()
 			L := e.maxLevel()
 			type cfg struct {
 				rel    string
 				l0, l1 int
 			}
-			cfgs := []cfg{{"eq", L, L}, {"gt", L, L}, {"lt", L, L}, {"eq", L, L - 1}, {"eq", L - 1, L}}
+			// scale ratios 1, 2, 3, 2^k in both directions
+			cfgs := []cfg{{"eq", L, L}, {"gt3", L, L}, {"lt3", L, L}, {"gt2", L, L}, {"lt2", L, L}, {"lt8", L, L}, {"eq", L, L - 1}, {"eq", L - 1, L}}
 			if c.Thorough() {
-				cfgs = append(cfgs, cfg{"gt", L - 1, L}, cfg{"lt", L, L - 1}, cfg{"eq", L - 1, L - 1}, cfg{"gt", 1, 1}, cfg{"lt", 1, 2})
+				cfgs = append(cfgs, cfg{"gt8", L, L}, cfg{"gt1024", L, L}, cfg{"lt1024", L, L}, cfg{"gt3", L - 1, L}, cfg{"lt3", L, L - 1},
+					cfg{"eq", L - 1, L - 1}, cfg{"gt2", 1, 1}, cfg{"lt2", 1, 2})
+			}
+			if nP == 2 { // the second environment only has to reach the ≥ 2 auxiliary primes code paths
+				cfgs = []cfg{{"eq", L, L}, {"lt3", L, L - 1}}
 			}
 			for _, op := range ops {
 				for _, g := range cfgs {
-					if !op.binary && g.rel == "lt" && op.kind != "pt" {
+					if dir, _ := c09Rel(g.rel); !op.binary && dir == "lt" && op.kind != "pt" {
 						continue // op1's scale only exists for ct/pt second operands ("gt" = op0 at 3× the default scale)
 					}
 					e.runOp(op, g.rel, g.l0, g.l1)
 				}
 			}
-			e.runCodec()
+			if nP == 1 {
+				e.runCodec()
+				e.runRingDiv()
+			}
 			e.runRGSW()
-			e.runRingDiv()
+		  }
 		}
 	}
+	c09RGSW(c)
 	c09Circuits(c)
 }
